@@ -148,7 +148,7 @@ impl Response {
             EventSender(Some(sender)),
             Self::new(200)
                 .with_type(ContentType::EventStream)
-                .with_body(ResponseBody::EventStream(Mutex::new(EventReceiver(
+                .with_body(ResponseBody::EventStream(Mutex::new(EventReceiver::new(
                     receiver,
                 )))),
         )
